@@ -145,6 +145,8 @@ struct Tracker {
 }
 
 struct Case {
+    /// run on the real NativeEffectBackend (wrapped) instead of the fake
+    native: bool,
     src: String,
     n_workers: usize,
     quantum: Option<usize>,
@@ -211,7 +213,19 @@ fn run_case(c: &Case, r: &mut Rng, model: &mut Model) -> Outcome {
     quiver_io::attach_file_builtins(&mut b);
     let mut sim = Sim::new(c.n_workers, c.quantum, b, true);
     let sh = BShared::new();
-    sim.env.set_effect_backend(Box::new(FakeBackend(sh.clone())));
+    let scratch = std::env::temp_dir().join(format!("qverif-c14-{}", std::process::id()));
+    if c.native {
+        let _ = std::fs::remove_dir_all(&scratch);
+        match WrapBackend::new(sh.clone(), scratch.clone()) {
+            Some(wb) => sim.env.set_effect_backend(Box::new(wb)),
+            None => {
+                out.rejected_by_compiler = Some("io_uring not available".into());
+                return out;
+            }
+        }
+    } else {
+        sim.env.set_effect_backend(Box::new(FakeBackend(sh.clone())));
+    }
     let mut sim = sim.with_repl(HashMap::new());
     let policy = Policy::random(r, c.n_workers);
 
@@ -333,6 +347,9 @@ fn run_case(c: &Case, r: &mut Rng, model: &mut Model) -> Outcome {
     }
     out.schedule = sim.render_schedule();
     out.result = out.results.join(" ; ");
+    if c.native {
+        let _ = std::fs::remove_dir_all(&scratch);
+    }
     for (idx, who, msg) in &sim.faults {
         out.problems.push(("sim=fault".into(), format!("step {idx} {who}: {msg}"), true));
     }
@@ -406,7 +423,7 @@ fn run_case(c: &Case, r: &mut Rng, model: &mut Model) -> Outcome {
 fn check_env_step(
     _c: &Case,
     events: &[Event<E>],
-    calls: &[Call],
+    calls_all: &[Call],
     cmds: &[(u64, usize, Command<E>)],
     term_before: &BTreeSet<ProcessId>,
     sleeping: &BTreeSet<ProcessId>,
@@ -417,6 +434,18 @@ fn check_env_step(
     out: &mut Outcome,
 ) {
     // ---------- what the real system did, in comparable form ----------
+    let native = sh.lock().native;
+    for c in calls_all {
+        if let Call::Surprise(what) = c {
+            out.problems.push((
+                "native=unexpected-backend-behaviour".into(),
+                format!("the real NativeEffectBackend behaved differently from its id-level description: {what}"),
+                false,
+            ));
+        }
+    }
+    let calls_f: Vec<Call> = calls_all.iter().filter(|c| !matches!(c, Call::Surprise(_))).cloned().collect();
+    let calls: &[Call] = &calls_f;
     let mut real_items: Vec<Item> = vec![];
     let mut completions_n = 0usize;
     for (i, call) in calls.iter().enumerate() {
@@ -430,6 +459,7 @@ fn check_env_step(
             Call::Execute { pid, kind, rid, .. } => real_items.push(Item::Exec(format!("{pid}:{kind}:{rid}"))),
             Call::Close { rid, .. } => push_close(&mut real_items, vec![*rid]),
             Call::ExplicitClose { .. } => {}
+            Call::Surprise(_) => {}
         }
     }
     let mut real_out: Vec<String> = vec![];
@@ -460,7 +490,7 @@ fn check_env_step(
                 "request {process_id} {} {} {}",
                 kind_of(effect),
                 named_rid(effect).unwrap_or(0),
-                if world_ok(effect) { 1 } else { 0 }
+                if world_ok(effect, native) { 1 } else { 0 }
             )),
             Event::DeliverAction { target, message, .. } => Some(format!("send {UNKNOWN_SENDER} {target} {}", val_sx(message))),
             Event::SpawnAction { caller, captures, argument, .. } => Some(format!(
@@ -891,6 +921,13 @@ fn probe(lines: &[String]) {
 fn main() {
     qverif::quiet_panics();
     let args: Vec<String> = std::env::args().collect();
+    if args.get(1).map(|s| s.as_str()) == Some("--native-check") {
+        match quiver_io::NativeEffectBackend::new(8) {
+            Ok(_) => println!("io_uring: available"),
+            Err(e) => println!("io_uring: NOT available ({e:?})"),
+        }
+        return;
+    }
     if args.get(1).map(|s| s.as_str()) == Some("--probe") {
         probe(&args[2..]);
         return;
@@ -903,13 +940,13 @@ fn main() {
 
     // ---- corpus: fixed programs first ----
     let mut programs: Vec<(String, String)> = corpus();
-    let n_gen = opts.tier.pick(1500, 30000);
+    let n_gen = opts.tier.pick(1500, 15000);
     let schedules = opts.tier.pick(3, 8);
     for i in 0..n_gen {
         let mut r = Rng::for_case(opts.seed ^ 0xC14, i as u64);
         let max_procs = 2 + r.usize(5);
         let n_actions = 6 + r.usize(30);
-        let sc = scenario::generate(&mut r, max_procs, n_actions);
+        let sc = scenario::generate(&mut r, max_procs, n_actions, false);
         for f in &sc.features {
             ev.hit(&format!("gen:{f}"));
         }
@@ -917,15 +954,38 @@ fn main() {
         programs.push((format!("gen{i}"), sc.source));
     }
 
+    // ---- a second stream on the REAL NativeEffectBackend (file / directory kinds), if io_uring exists ----
+    let native_ok = quiver_io::NativeEffectBackend::new(8).is_ok();
+    let n_native = if native_ok { opts.tier.pick(120, 2500) } else { 0 };
+    ev.set_extra("native_backend_available", json!(native_ok));
+    let first_native = programs.len();
+    for i in 0..n_native {
+        let mut r = Rng::for_case(opts.seed ^ 0xC14F, i as u64);
+        let max_procs = 2 + r.usize(4);
+        let n_actions = 6 + r.usize(24);
+        let sc = scenario::generate(&mut r, max_procs, n_actions, true);
+        programs.push((format!("native{i}"), sc.source));
+    }
+    // the file-only corpus programs also run on the real backend
+    if native_ok {
+        for (name, src) in corpus() {
+            if !src.contains("tcp_") && !src.contains("dns_") {
+                programs.push((format!("native:{name}"), src));
+            }
+        }
+    }
+
     let mut total_transfers = 0u64;
     let mut rejected_programs = 0u64;
     for (pi, (name, src)) in programs.iter().enumerate() {
+        let native = pi >= first_native;
+        let schedules = if native { 2 } else { schedules };
         for k in 0..schedules {
             let case_no = (pi * 100 + k) as u64;
             let mut r = Rng::for_case(opts.seed ^ 0x5C4ED, case_no);
             let n_workers = 1 + r.usize(4);
             let quantum = *r.pick(&[Some(1usize), Some(3), Some(17), None]);
-            let c = Case { src: src.clone(), n_workers, quantum };
+            let c = Case { native, src: src.clone(), n_workers, quantum };
             let o = match qverif::catch(|| run_case(&c, &mut r, &mut model)) {
                 Ok(o) => o,
                 Err(p) => {
@@ -958,6 +1018,7 @@ fn main() {
             ev.add("requests:reached-backend", o.execs as u64);
             ev.add("closes:by-cleanup", o.closes as u64);
             ev.add("end:F10-resources", o.f10 as u64);
+            ev.hit(if native { "backend:real-NativeEffectBackend(io_uring)" } else { "backend:fake" });
             ev.hit(&format!("workers={n_workers}"));
             ev.hit(&format!("quantum={quantum:?}"));
             ev.hit(&format!(
